@@ -5,6 +5,8 @@
 (2) static_assert witnesses over the constexpr handle members (boundary indices and two ranges).
 (3) mirror construction: shape rules over opposite_halfedge/opposite_halfface/halfedge()/halfface(),
     the halfface vertex/halfedge circulators, next/prev_halfedge_in_halfface and add_face(vertices)."""
+import re
+
 from .extract import AnalysisBroken
 from .facts import as_assign, estr, need_names, unwrap, walk
 from .readers import cmp_parts, strip_casts
@@ -298,28 +300,41 @@ def mirror(ck, fb):
                 if d != (1 if fwd else -1):
                     verdict = False
         else:
-            step = wrap = False
-            for b, x in pos:
-                s = estr(x).replace(" ", "")
-                at = {(estr(c).replace(" ", ""), pol) for c, pol, e in f.facts(b)}
-                if fwd:
-                    if "*(it+1)" in s and any("(it+1)!=" in c and "end()" in c and pol is True for c, pol in at):
-                        step = True
-                    if "begin()" in s and any("(it+1)!=" in c and "end()" in c and pol is False for c, pol in at):
-                        wrap = True
-                else:
-                    if "*(it-1)" in s and any("it!=" in c and "begin()" in c and pol is True for c, pol in at):
-                        step = True
-                    if "end()-1" in s and any("it!=" in c and "begin()" in c and pol is False for c, pol in at):
-                        wrap = True
+            # iterator form, on canonical strings: IT = the one stepped/compared iterator over the halfface's list, P0 = the halfedge
+            from .canon import Canon
+            cn = Canon(f)
+            its = sorted({m for b, x in pos for m in re.findall(r"it\d+\(", cn.s(x))})
             if not pos:
                 raise AnalysisBroken("C08: %s: no positive return found" % name)
-            need_names(f, ["it", "_heh"], None, "C08.step")
-            if not any("it" in estr(x) for b, x in pos):
+            if len(its) != 1:
                 raise AnalysisBroken("C08: %s: neither the iterator form nor the modular index form recognised: %s" % (name, texts))
-            verdict = step and wrap
-            matched = all(any("(*it == _heh)" == estr(c) and pol is True for c, pol, e in f.facts(b)) for b, x in pos)
+            itname = its[0][:-1]
+            itv = [vid for vid, nm in cn._name.items() if nm == itname][0]
+            itfull = cn.var({"k": "var", "id": itv, "n": "it"})
+            conv = lambda t_: re.sub(r"__normal_iterator\(((?:[^()]|\([^()]*\))*)\)", r"\1", t_)  # iterator -> const_iterator conversions
+            canon = lambda n_: conv(cn.s(n_).replace(itfull, "IT")).replace(" ", "")
+            cont = conv(cn.s(cn.decl[itv][0]["init"])).replace(" ", "")
+            if not cont.endswith(".begin()"):
+                raise AnalysisBroken("C08: %s: the iterator does not start at begin(): %s" % (name, cont))
+            C = cont[:-len(".begin()")]
+            step = wrap = False
+            for b, x in pos:
+                s_ = canon(x.get("x"))
+                at = {(canon(c), pol) for c, pol, e in f.facts(b) if isinstance(pol, bool)}
+                if fwd:
+                    if s_ == "*(IT+1)" and ("((IT+1)!=%s.end())" % C, True) in at:
+                        step = True
+                    if s_ == "*%s.begin()" % C and ("((IT+1)!=%s.end())" % C, False) in at:
+                        wrap = True
+                else:
+                    if s_ == "*(IT-1)" and ("(IT!=%s.begin())" % C, True) in at:
+                        step = True
+                    if s_ == "*(%s.end()-1)" % C and ("(IT!=%s.begin())" % C, False) in at:
+                        wrap = True
+            verdict = step and wrap and C == "halfface(P1).halfedges()"
+            matched = all(any(canon(c) == "(*IT==P0)" and pol is True for c, pol, e in f.facts(b)) for b, x in pos)
             verdict = verdict and matched
+            texts = [canon(x.get("x")) for b, x in pos] + ["over " + C]
         (ck.ok if verdict else lambda r, w, t: ck.violate(r, w, t, "C08.step:%s" % name))("C08.step", f.where, "%s steps by %s with wrap-around (%s)" % (name, "+1" if fwd else "-1", texts))
     # add_face(vertices)
     f = one("add_face", lambda f: len(f.d["params"]) == 1 and "VH" in f.d["params"][0]["t"])
